@@ -52,6 +52,12 @@ type pkgCodec struct {
 	ClientOnly, ServerOnly bool
 	// NeedsCtx: decoding needs the preceding package (its bytes travel in <ctx>).
 	NeedsCtx bool
+	// Norm (optional): the field list `pkg dec` shows for the encoding of a field list (documented
+	// normalisations, e.g. an EED message loses one trailing newline); nil = identity.
+	Norm func(fields []string) []string
+	// CtxFor (optional, with NeedsCtx): the bytes of the preceding package (token included) that
+	// a package with these fields has to be decoded after.
+	CtxFor func(fields []string) []byte
 }
 
 var codecRegistry = map[string]*pkgCodec{}
@@ -234,6 +240,68 @@ func pkgEncLine(f []string) string {
 	return encodePkg(p)
 }
 
+// pkgRtLine implements `pkg rt <kind> <field>…`: real WriteTo, then real ReadFrom of what was written.
+func pkgRtLine(f []string) string {
+	e := pkgEncLine(f)
+	if !strings.HasPrefix(e, "ok ") {
+		return e
+	}
+	bs := unhx(e[3:])
+	if len(bs) < 1 {
+		return "bad-op"
+	}
+	d := pkgDecLine([]string{hx(bs[:1]), "-", hx(bs[1:])})
+	return fmt.Sprintf("%s of %d", d, len(bs)-1)
+}
+
+// pkgSpecLine implements `pkg spec <kind> <field>…` (oracle only): the independent encoder's bytes
+// through the real ReadFrom.
+func pkgSpecLine(f []string) string {
+	if len(f) < 1 {
+		return "bad-op"
+	}
+	c := codecRegistry[f[0]]
+	if c == nil || c.SpecEnc == nil {
+		return "bad-op"
+	}
+	bs, ok := c.SpecEnc(f[1:])
+	if !ok || len(bs) < 1 {
+		return "bad-op"
+	}
+	ctx := "-"
+	if c.NeedsCtx && c.CtxFor != nil {
+		ctx = hx(c.CtxFor(f[1:]))
+	}
+	d := pkgDecLine([]string{hx(bs[:1]), ctx, hx(bs[1:])})
+	return fmt.Sprintf("%s of %d", d, len(bs)-1)
+}
+
+// pkgSpecDecLine implements `pkg specdec <kind> <field>…` (oracle only): the real WriteTo's bytes
+// through the independent decoder.
+func pkgSpecDecLine(f []string) (out string) {
+	defer func() {
+		if r := recover(); r != nil {
+			out = "panic"
+		}
+	}()
+	if len(f) < 1 {
+		return "bad-op"
+	}
+	c := codecRegistry[f[0]]
+	if c == nil || c.SpecDec == nil {
+		return "bad-op"
+	}
+	e := pkgEncLine(f)
+	if !strings.HasPrefix(e, "ok ") {
+		return e
+	}
+	shown, ok := c.SpecDec(unhx(e[3:]))
+	if !ok {
+		return "specdec-rejects"
+	}
+	return "ok " + shown
+}
+
 func pkgImpl(line string) string {
 	f := strings.Fields(line)
 	if len(f) < 2 || f[0] != "pkg" {
@@ -244,6 +312,12 @@ func pkgImpl(line string) string {
 		return pkgEncLine(f[2:])
 	case "dec":
 		return pkgDecLine(f[2:])
+	case "rt":
+		return pkgRtLine(f[2:])
+	case "spec":
+		return pkgSpecLine(f[2:])
+	case "specdec":
+		return pkgSpecDecLine(f[2:])
 	}
 	return "bad-op"
 }
